@@ -186,6 +186,10 @@ class WebSession(object):
         except ValueError as error:
             raise ProtocolError('Invalid redirect location.') from error
 
+        if request.url_info.scheme not in ('http', 'https'):
+            # This session can only speak HTTP to the next location.
+            raise ProtocolError('Redirect to unsupported scheme.')
+
         self._next_request = request
 
         _logger.debug('Updated next redirect request to {0}.'.format(request))
